@@ -227,7 +227,7 @@ class C02(Prop):
             '>= 1 is mentioned after its creation; distinct by SHA-1 of the spec list. Histories include messages on objects never seen created (a log that starts '
             'mid-session): they stay unresolved, what they create exists. fresh-process: reuse-heavy histories shown by a fresh main.py process in full and behind a '
             'filter; the full run is compared with the model line by line, every filtered line must read exactly as in the full run. gdb-mode: the histories as '
-            'libwayland closures through the real plugin and extract.py on the symbolic gdb stand-in (incl. same-named same-signature messages of different interfaces).')
+            'libwayland closures through the real plugin and extract.py on the symbolic gdb stand-in (incl. same-named same-signature messages of different interfaces). gdb-mode histories contain objects never seen created: a closure sent on one is untyped (interface and argument names not judged), what it creates exists.')
     assumptions = ['well-formed histories as constructed by histgen (client ids reused only after delete_id)',
                    'reference model of DESIGN appendix B; enum labels and times are excluded here (C07, C16)']
     stages = [Machine(), DeepReuse(), LongSessions(), GdbShaped(), GdbMode(), FreshProcess()]
